@@ -2,13 +2,14 @@
 // with props/C11/univ_test.go which documents the type / value grammar).
 //
 // inputs:
-//   enc <type> <value>        Marshal the value of the described Go type, Unmarshal the bytes into a
-//                             fresh destination of the same type
+//   enc <type> <value> [<dirt>]   Marshal the value of the described Go type, Unmarshal the bytes into a
+//                             fresh destination of the same type, or, with the third field, into a
+//                             destination that already holds the value <dirt> (a reused variable)
 //   order <struct type>       the encoding order of the fields (observed with distinct one-byte values)
 // observables:
 //   enc   -> <hex of Marshal | err | nondet> <value text of Unmarshal(Marshal v) | err | left:<n> | ~>
 //            nondet: 200 Marshal calls of a value containing a map with >= 2 entries did not all
-//            give the same bytes (the second field is then "~")
+//            give the same bytes (the round trip is made with the first of them)
 //   order -> the field indices (declaration positions, hex) in encoding order, comma separated
 package scale
 
@@ -127,6 +128,20 @@ func c11Gen(r *vu.RNG, n int, emit func(string)) {
 			emit("order " + d)
 		}
 	}
+	// reused destinations: None / shorter / other-variant values over a destination holding more
+	emit("enc opt(u16) N S7")
+	emit("enc opt(u16) S5 S7")
+	emit("enc st(_:bytes,_:opt(str),_:uint) [-,N,0] [010203,S616263,7]")
+	emit("enc sl(opt(u64)) [N] [S1,S2,S3]")
+	emit("enc sl(u16) [] [1,2,3]")
+	emit("enc arr(2,opt(bool)) [N,Sf] [St,St]")
+	emit("enc st(_:res(u8,bool),_:u16) [Et,0] [U,7]")
+	emit("enc " + svuEnumC + " V9:N V9:S5")
+	emit("enc " + svuEnumA + " V1:t V3:aabb")
+	emit("enc bytes - aabbcc")
+	emit("enc big 0 ffffffffffffffffffff")
+	emit("enc u128 1 ffffffffffffffffffffffffffffffff")
+	emit("enc st(_:st(_:u8,_:st(1:bool,0:u16)),_:sl(u32)) [[0,[f,0]],[]] [[9,[t,9]],[1,2]]")
 	for i := 0; i < n; i++ {
 		d := svuPickTy(r)
 		t := svuParseTy(d)
@@ -135,7 +150,13 @@ func c11Gen(r *vu.RNG, n int, emit func(string)) {
 			continue
 		}
 		budget := 400
-		emit("enc " + d + " " + svuGenVal(r, t, &budget))
+		val := svuGenVal(r, t, &budget)
+		if r.Chance(1, 5) { // round trip into a destination that already holds another value
+			db := 60
+			emit("enc " + d + " " + val + " " + svuGenDirt(r, t, &db))
+			continue
+		}
+		emit("enc " + d + " " + val)
 	}
 }
 
@@ -149,6 +170,7 @@ func c11Run(in string) string {
 		if err != nil {
 			return "err ~"
 		}
+		nondet := false
 		if c11HasMultiMap(t, v) {
 			for i := 0; i < 200; i++ {
 				e2, err := Marshal(v.Interface())
@@ -156,21 +178,30 @@ func c11Run(in string) string {
 					return "err ~"
 				}
 				if !bytes.Equal(enc, e2) {
-					return "nondet ~"
+					nondet = true
+					break
 				}
 			}
 		}
 		dst := reflect.New(t.gt)
-		dst.Elem().Set(svuFresh(t))
+		if len(f) == 4 {
+			dst.Elem().Set(svuBuild(t, f[3]))
+		} else {
+			dst.Elem().Set(svuFresh(t))
+		}
+		first := vu.Hex(enc)
+		if nondet {
+			first = "nondet"
+		}
 		buf := bytes.NewBuffer(append([]byte{}, enc...))
 		err = NewDecoder(buf).Decode(dst.Interface())
 		if err != nil {
-			return vu.Hex(enc) + " err"
+			return first + " err"
 		}
 		if buf.Len() != 0 {
-			return vu.Hex(enc) + " left:" + vu.X(uint64(buf.Len()))
+			return first + " left:" + vu.X(uint64(buf.Len()))
 		}
-		return vu.Hex(enc) + " " + svuRender(t, dst.Elem())
+		return first + " " + svuRender(t, dst.Elem())
 	case "order":
 		t := svuParseTy(f[1])
 		// give field i the one-byte value i (fields of any type are replaced by u8 with the same tags)
